@@ -189,10 +189,10 @@ PROPS = {
     ),
     "C11": dict(
         technique='sanitizers: ASan+UBSan on exact-size guard-banded poisoned buffers, canaries, differential pre-fill, valgrind memcheck definedness, LeakSanitizer',
-        runs=plan([dict(cfg="asan", parts=16),
+        runs=plan([dict(cfg="asan", parts=16), dict(CONC),
                    dict(cfg="asan", parts=4, mode="leaks", env={"ASAN_OPTIONS": "abort_on_error=1:detect_leaks=1:leak_check_at_exit=0:allocator_may_return_null=1:handle_abort=0"}),
                    dict(cfg="plain", parts=8, mode="memcheck", wrapper=["valgrind", "-q", "--error-exitcode=97", "--errors-for-leak-kinds=none"], timeout=1800)],
-                  [dict(cfg="asan", parts=16),
+                  [dict(cfg="asan", parts=16), dict(CONC, parts=8),
                    dict(cfg="asan", parts=4, mode="leaks", env={"ASAN_OPTIONS": "abort_on_error=1:detect_leaks=1:leak_check_at_exit=0:allocator_may_return_null=1:handle_abort=0"}),
                    dict(cfg="plain", parts=16, mode="memcheck", wrapper=["valgrind", "-q", "--error-exitcode=97", "--errors-for-leak-kinds=none"], timeout=7200)]),
         rule=("case = one catalogue entry point executed twice with the same arguments and two different pre-fills of "
